@@ -21,13 +21,21 @@ PROPERTY = "C01"
 LEAN_MODULES = ["TapkeeVerif.Props.C01"]
 LEAN_EXES = ["model_c01"]
 REQUIRED_THEOREMS = ["TapkeeVerif.C01." + t for t in [
+    # §1 model sanity
     "prediction_shape", "prediction_errors_documented", "unvalidated_only_throws", "validated_plain_method_must_succeed",
-    "inb_nth_element", "neighbor_lists_have_length_k", "inb_neighbor_lists", "inb_cover_sets", "inb_cover_sets_all",
-    "inb_hlle_blocks", "inb_ltsa_g", "inb_dense_largest_N", "inb_dm", "inb_landmark_erase", "inb_triangulate",
-    "inb_dense_smallest_cols", "inb_gen_le_cols", "inb_randomized", "inb_spe_ind1", "inb_spe_indices", "inb_tsne_y",
-    "inb_tsne_knn", "foreign_throws_listed", "no_foreign_throw_reachable", "never_exits_unless_alloc_fails",
-    "assert_sites_listed", "largest_strategies_skip_zero", "kSeq_reaches_complete_graph", "findNeighbors_terminates",
-    "perplexity_bisection_bounded", "iteration_counts_bounded", "spe_default_iterations"]]
+    "general_position_must_succeed", "predictionOn_errors_documented",
+    # §2 index sites (those of SITE_THEOREMS below are required in full OR as refuted + partial)
+    "validated_d", "validated_k", "inb_nth_element", "neighbor_lists_have_length_k", "inb_neighbor_lists",
+    "inb_neighbor_lists_needs_uniform", "inb_cover_sets", "inb_cover_sets_all", "inb_cover_leaf_and_node_scale",
+    "inb_hlle_col_after_fix", "inb_hlle_blocks", "hlle_dp_nonneg", "inb_ltsa_g", "inb_dense_largest_N", "inb_dm",
+    "inb_landmark_erase", "inb_triangulate", "inb_dense_smallest_cols", "inb_gen_le_cols", "inb_randomized", "inb_spe_ind1",
+    "spe_floor_term", "inb_spe_indices", "inb_tsne_y", "inb_tsne_posf_partial", "inb_tsne_exact_error_partial", "inb_tsne_knn",
+    # §3 exception / exit / allocation tables
+    "foreign_throws_listed", "no_foreign_throw_reachable", "never_exits_unless_alloc_fails", "alloc_sizes_computed_wide",
+    "assert_sites_listed", "largest_strategies_skip_zero",
+    # §4 termination
+    "kSeq_reaches_complete_graph", "findNeighbors_terminates", "perplexity_bisection_bounded", "iteration_counts_bounded",
+    "spe_default_iterations"]]
 # sites whose full statement may currently be refuted: either `<name>` or (`<name>_refuted` and `<name>_partial`)
 SITE_THEOREMS = ["inb_hlle_col", "inb_hlle_eigvec_rightCols", "inb_ltsa_eigvec_rightCols", "inb_pca_rightCols",
                  "inb_landmark_rightCols", "inb_dense_segment", "inb_gen_segment", "inb_gen_linear_cols", "inb_tsne_posf",
@@ -73,8 +81,8 @@ def translate(ctx):
 def case_line(c):
     """c: dict -> canonical case line (same text goes to harness and model)"""
     order = ["id", "method", "nm", "em", "N", "D", "d", "k", "data", "seed", "ratio", "perp", "theta", "width",
-             "timesteps", "squish", "maxit", "spe_global", "spe_tol", "spe_upd", "fa_eps", "check_conn", "api",
-             "wrongtype", "limit"]
+             "timesteps", "squish", "maxit", "spe_global", "spe_tol", "spe_upd", "fa_eps", "nullshift", "klleshift",
+             "check_conn", "api", "idx", "wrongtype", "dupkw", "limit"]
     return "sweep " + " ".join("%s=%s" % (k, c[k]) for k in order if k in c and c[k] is not None)
 
 
@@ -118,7 +126,7 @@ def boundary_cases(r, n):
     for _ in range(n):
         N = r.choice([4, 5, 8, 17])
         D = r.choice(DS)
-        kind = r.below(12)
+        kind = r.below(16)
         if kind == 0:
             m = r.choice(METHODS)
             c = base_case(r, m, N, D, r.choice(["0", "N", "N+1"]), r.choice(K_CLASSES), r.choice(DATA))
@@ -161,6 +169,30 @@ def boundary_cases(r, n):
             m = r.choice(METHODS)
             c = base_case(r, m, N, D, r.choice(D_CLASSES), r.choice(K_CLASSES), r.choice(DATA))
             c["api"] = "embed"
+            c["idx"] = r.choice(["identity", "perm", "sparse", "sparse"])
+        elif kind == 12:
+            # the regularisers of the local problems (no validation in the code: every value passes)
+            m = r.choice(["klle", "npe", "kltsa", "lltsa"])
+            c = base_case(r, m, N, D, r.choice(["1", "2"]), r.choice(["3", "4"]), r.choice(DATA))
+            c["nullshift"] = r.choice(["0", "-1", "1/1000000000", "1/1000", "1", "1000000"])
+            if m in ("klle", "npe"):
+                c["klleshift"] = r.choice(["0", "-1", "1/1000", "1/2", "1000000"])
+        elif kind == 13:
+            # SPE with max_iteration = 0: the default iteration count 2000 + floor(0.04 N^2) (x3 for the local strategy)
+            c = base_case(r, "spe", r.choice([4, 5, 8]), D, r.choice(["1", "2"]), "3", r.choice(DATA))
+            c["maxit"] = 0
+        elif kind == 14:
+            # the parameter set itself: a keyword of the wrong C++ type / a keyword given twice
+            m = r.choice([x for x in METHODS if x not in ("dm", "le", "lpp")])
+            c = base_case(r, m, r.choice([0, N, N]), D, r.choice(["1", "2"]), "3", r.choice(DATA))
+            if r.chance(1, 2):
+                c["wrongtype"] = 1
+            else:
+                c["dupkw"] = 1
+        elif kind == 15:
+            m = r.choice(["dm"])
+            c = base_case(r, m, N, D, r.choice(["1", "2"]), "3", "generic")
+            c["timesteps"] = r.choice([1, 2, 5])
         else:
             m = r.choice(METHODS)
             c = base_case(r, m, N, D, "1", "3", r.choice(DATA))
@@ -203,6 +235,15 @@ def general_position_cases(r):
                         c["maxit"] = 5
                     if m == "fa":
                         c["maxit"] = 20
+                    if m in ("klle", "npe", "kltsa", "lltsa") and r.chance(1, 2):
+                        c["nullshift"] = r.choice(["1/1000000000", "1/1000000", "1/1000"])
+                        if m in ("klle", "npe"):
+                            c["klleshift"] = r.choice(["1/1000", "1/100", "1/10"])
+                    if m == "spe" and N <= 17 and r.chance(1, 3):
+                        c["maxit"] = 0
+                    if r.chance(1, 2):
+                        c["api"] = "embed"
+                        c["idx"] = r.choice(["perm", "sparse", "sparse"])
                     out.append(c)
     return out
 
@@ -412,6 +453,11 @@ def oracle(ctx, c, obs, pred):
     if obs.startswith("throw "):
         cls = obs.split()[1]
         if cls in documented(ctx):
+            if pred.get("finite") == "1":
+                # a documented error is the answer to degenerate data; samples in general position with parameters
+                # strictly inside their ranges must be embedded (a solver that always throws is a dead library)
+                return False, "throw-in-general-position:%s:%s" % (c["method"], cls), \
+                    "throws %s although the configuration is in general position (valid input, interior parameters)" % cls
             return True, None, None
         return False, "foreign-throw:%s@%s" % (cls, c["method"]), "throws %s, which is not a documented tapkee exception" % cls
     sites = pred.get("sites", "-")
@@ -531,6 +577,17 @@ def judge(ctx, plan, label):
         for i, rr in enumerate(rs):
             results[wi][j + i * jobs] = rr
     ctx.log("%s: %d runs (%s) in %.1fs" % (label, total, ", ".join("%d on %s" % (len(w[3]), w[0]) for w in work), time.time() - t0))
+    # a watchdog hit is confirmed by running the case ALONE once more (twice the limit) before it is reported: on a
+    # loaded machine 16 processes x 2 threads can starve a healthy case
+    retry = [(wi, i) for wi, rs in enumerate(results) for i, (obs, _) in enumerate(rs) if obs.startswith("timeout")]
+    for wi, i in retry[:24]:
+        c2 = dict(work[wi][2][i])
+        c2["limit"] = 2 * int(c2.get("limit", limit))
+        again = run_chunk(ctx, work[wi][1], [case_line(c2)])[0]
+        ctx.stat("timeout-retried-alone")
+        if not again[0].startswith("timeout"):
+            ctx.stat("timeout-not-confirmed")
+            results[wi][i] = again
     for (bname, binary, cases, lines, preds), rs in zip(work, results):
         for c, line, (obs, errtail), pred in zip(cases, lines, rs, preds):
             nontrivial = pred.get("validated") == "1"
@@ -548,7 +605,12 @@ def judge(ctx, plan, label):
                 ctx.stat("obs:" + obs.split(":")[0].split("@")[0])
             if pred.get("finite") == "1":
                 ctx.stat("general-position-cases")
-                ctx.c01_judged[c["method"]] = ctx.c01_judged.get(c["method"], 0) + 1
+                if obs.startswith("ok ") and "finite=1" in obs:
+                    # the floor counts what was OBSERVED: an embedding with finite entries
+                    ctx.stat("general-position-ok-finite")
+                    ctx.c01_judged[c["method"]] = ctx.c01_judged.get(c["method"], 0) + 1
+            if c.get("api") == "embed":
+                ctx.stat("api:embed:idx=" + str(c.get("idx", "identity")))
             ok, sig, what = oracle(ctx, c, obs, pred)
             if not ok:
                 ctx.c01_failures.append({"sig": sig, "case": c, "obs": obs, "stderr": errtail, "pred": pred,
@@ -659,9 +721,25 @@ def site_status(ctx):
     ctx.extra["open_findings_in_props"] = sorted(k for k, v in status.items() if v.startswith("refuted"))
 
 
+def translator_selftest(ctx):
+    """thorough tier: tools/test_translate_robust.py — mechanical behaviour-preserving rewrites of every header must leave
+    the generated definitions unchanged (a rewrite that changes them or raises = a formatting-sensitive anchor)"""
+    t0 = time.time()
+    r = vlib.sh([os.sys.executable, os.path.join(vlib.ROOT, "tools", "test_translate_robust.py")],
+                env=dict(os.environ, TAPKEE_REPO=vlib.REPO))
+    lines = [l for l in r.stdout.split("\n") if l.strip()]
+    bad = [l for l in lines if not l.startswith("same")]
+    ctx.extra["translator_selftest"] = {"rewrites": len(lines), "unchanged": len(lines) - len(bad), "wall_s": round(time.time() - t0, 1)}
+    if r.returncode != 0 or bad:
+        ctx.broken("translator:selftest", "tools/test_translate_robust.py",
+                   "a behaviour-preserving rewrite changes the translator's output or makes it raise: " + "; ".join(bad)[:600])
+
+
 def correspond(ctx):
     load_documented(ctx)
     site_status(ctx)
+    if ctx.tier == "thorough":
+        translator_selftest(ctx)
     ctx.c01_failures = []
     ctx.c01_judged = {}
     t0 = time.time()
@@ -706,8 +784,8 @@ def correspond(ctx):
     for m in METHODS:
         if ctx.c01_judged.get(m, 0) == 0:
             ctx.broken("coverage:finiteness:" + m, "sweep coverage (general-position cases of %s)" % m,
-                       "no configuration of %s was judged under the finiteness clause in this run: the model never "
-                       "declared general position for it (generator or Model/Pipeline.mustBeFinite too narrow)" % m)
+                       "no general-position configuration of %s was observed to return a finite embedding in this run "
+                       "(generator or Model/Pipeline.mustBeFinite too narrow, or the method fails on healthy input)" % m)
     ctx.cov["rule"] = ("configurations of the public API drawn from 20 methods x {brute,vptree,covertree} x {dense,randomized} x "
                        "d in {1,2,3,N-2,N-1} x k in {3,4,N/5,N-1} x data in {generic,dup(>=k+2 coincident),lattice,collinear,"
                        "constant,widerange 1e12} x N in {1,2,3,4,5,8,17,40} x D in {1,2,3,10} + keyword-boundary cases "
